@@ -979,5 +979,5 @@ func TestReplay(t *testing.T) {
 			}
 		}
 		return o
-	}), "nondet": kit.ReplaySub(execNondet)})
+	}), "nondet": kit.ReplaySub(execNondet), "pipe": kit.ReplaySub(execPipe)})
 }
